@@ -684,13 +684,15 @@ impl ChessBoard {
                     return false;
                 }
 
-                /* Check if promotion option contain any piece. If yes, we need to ensure that this
-                is a Pawn move and the pawn is moving to opposite side's back-rank */
-                if (m.get_promotion().is_some())
-                    & (m.get_piece_type() != Pawn)
-                    & (destination.get_rank() != self.side_to_move.get_back_rank())
-                {
-                    return false;
+                /* A pawn reaching the promotion rank must name a promotion piece (knight, bishop,
+                rook or queen); any other move must not contain a promotion option */
+                let is_promotion_move = (m.get_piece_type() == Pawn)
+                    & (destination.get_rank() == self.side_to_move.get_promotion_rank());
+                match m.get_promotion() {
+                    Some(King) | Some(Pawn) => return false,
+                    Some(_) if !is_promotion_move => return false,
+                    None if is_promotion_move => return false,
+                    _ => {}
                 }
 
                 /* If current side's King is in check or it is King's move we must analyze, if on
